@@ -527,6 +527,19 @@ def catalogue3():
            {"x": "A('f8',(6,4),(4,3))", "idx": "(slice(1, 3),)", "value": "0.0"},
            {"idx": ["(slice(1, 4),)", "(1,)", "([1, 2],)", "(slice(None), 1)", "(A('bool',(6,4),(4,3)),)", "(A('bool',(6,4),(4,3),1),)"], "value": LITS + ["R('f8',(4,),1)"]},
            make=lambda a: _setitem(a, True), ref=lambda a: _setitem(a, False)))
+    add(_F("setitem.spelling",
+           # keys selecting the same elements in another order / spelling (forward vs backward slices, lists vs slices, negative vs positive
+           # bounds, masks vs integer lists), values differing only in order / dtype / broadcast shape
+           {"x": "A('f8',(6,4),(4,3))", "idx": "(slice(1, 5),)", "value": "R('f8',(4,4),1)"},
+           {"idx": ["(slice(4, 0, -1),)", "([1, 2, 3, 4],)", "([4, 3, 2, 1],)", "(slice(-5, -1),)", "(slice(-2, -6, -1),)", "(slice(1, 5), slice(None, None, -1))", "(slice(4, 0, -1), slice(None, None, -1))",
+                    "(np.array([False, True, True, True, True, False]),)", "(slice(1, 5, 1),)", "(slice(1, 5), [0, 1, 2, 3])", "(slice(1, 5), [3, 2, 1, 0])", "(np.array([1, 2, 3, 4]),)", "(np.array([4, 3, 2, 1]),)"],
+            "value": ["R('f8',(4,4),1)[::-1].copy()", "R('f8',(4,4),1)[:, ::-1].copy()", "R('f8',(1,4),1)", "R('f8',(4,1),1)", "R('f8',(4,),1)", "R('i8',(4,4),1)", "R('f4',(4,4),1)", "A('f8',(4,4),(2,2),1)", "A('f8',(4,4),(2,2),1)[::-1]"]},
+           make=lambda a: _setitem(a, True), ref=lambda a: _setitem(a, False)))
+    add(_F("setitem.spelling-1d",
+           {"x": "A('f8',(10,),(4,))", "idx": "(slice(2, 8),)", "value": "R('f8',(6,),1)"},
+           {"idx": ["(slice(7, 1, -1),)", "([2, 3, 4, 5, 6, 7],)", "([7, 6, 5, 4, 3, 2],)", "(slice(-8, -2),)", "(slice(-3, -9, -1),)", "(np.array([2, 3, 4, 5, 6, 7]),)", "(np.array([False, False, True, True, True, True, True, True, False, False]),)", "(slice(3, 9),)"],
+            "value": ["R('f8',(6,),1)[::-1].copy()", "R('i8',(6,),1)", "R('f8',(1,),1)", "A('f8',(6,),(3,),1)", "A('f8',(6,),(3,),1)[::-1]", "R('f8',(6,),1).tolist()"]},
+           make=lambda a: _setitem(a, True), ref=lambda a: _setitem(a, False)))
     add(_F("rechunk",
            {"x": "A('f8',(8,6),(4,3))", "chunks": "(2, 3)", "threshold": "None", "block_size_limit": "None", "balance": "False", "method": "None"},
            {"chunks": ["(2, 6)", "((2, 6), (3, 3))", "((6, 2), (3, 3))", "{0: 2}", "{1: 2}", "(2, -1)", "2", "(3, 3)"], "threshold": ["1", "2"], "block_size_limit": ["64", "1e9"], "balance": ["True"], "method": ["'tasks'"],
